@@ -23,7 +23,7 @@ claim("C16",
 
 claim("C03",
       "Bounded symbolic model check of the real HSMS message constructors, serialisers, decoders, re-stamping helpers and buildFrameBuffers against a literal E37 8.2 frame layout: "
-      "all (stream, function, W, session id, system bytes) tuples x 7 body shapes, all nine control kinds with symbolic status/reason/request type, re-stamp chains of <=3 steps, all 2^80 headers for the from-header constructor. "
+      "all (stream, function, W, session id, system bytes) tuples x 7 body shapes, all nine control kinds with symbolic status/reason/request type, re-stamp chains of <=4 steps (thorough <=5), all 2^80 headers for the from-header constructor. "
       "Construction rejects exactly the invalid combinations; frame = decode = re-serialise = bytes handed to the transport.",
       "Trusted: executor + models, z3, refFrame. Outside: the socket (the write is the net.Buffers handed to the transport), larger bodies (C01).")
 
